@@ -57,7 +57,7 @@ func c13(w *core.World, r *core.Report) {
 					return false
 				}
 				s, ok := core.ConstString(c.Call.Args[1])
-				return ok && s == reservedPrefix(p0(w))+":" && core.Unwrap(c.Call.Args[0]) == ssa.Value(f.Params[0])
+				return ok && s == reservedPrefix(p0(w))+":" && core.Unwrap(p.Resolve(c.Call.Args[0])) == ssa.Value(f.Params[0])
 			}, true)
 			if !pref {
 				bad = "the predicate can answer true for a key outside the reserved bookkeeping prefix: a client command on such a key would be suppressed"
@@ -255,58 +255,46 @@ func ruleKeyPositionsOnly(w *core.World, r *core.Report) {
 	// touchesBisyncNamespace: isBisyncNamespaceKey on Args[0], or on every arg only under del/unlink
 	if f := fn(w, r, "syncer.touchesBisyncNamespace"); f != nil {
 		n := 0
-		for _, s := range core.SitesNamed(f, false, "syncer.isBisyncNamespaceKey") {
-			n++
-			arg := s.Args()[0]
-			first := false
-			core.Walk(arg, func(v ssa.Value) bool {
-				if ia, ok := v.(*ssa.IndexAddr); ok {
-					if k, isC := core.ConstInt(ia.Index); isC && k == 0 {
-						first = true
-					}
+		firstSeen, allBad := false, ""
+		var allPos token.Pos = f.Pos()
+		core.EnumPathsN(f.Blocks[0], 0, 100000, core.Unroll, func(p *core.Path) {
+			for _, in := range p.Instrs {
+				c, ok := in.(*ssa.Call)
+				if !ok || core.ResolveCall(c).Name != "syncer.isBisyncNamespaceKey" {
+					continue
 				}
-				return true
-			})
-			if first {
-				r.OK("touchesBisyncNamespace/first-argument", s.Pos(), "")
-				continue
-			}
-			// iterating: only under the del / unlink cases
-			delOnly := false
-			for _, fct := range core.FactsAt(s.Instr.Block()) {
-				if c, ok := core.AsCmp(fct.Cond, fct.Val); ok && c.Op == token.EQL {
-					if str, ok := core.ConstString(c.Y); ok && (str == "del" || str == "unlink") {
-						delOnly = true
-					}
-				}
-			}
-			if !delOnly {
-				// the switch may merge both cases into one block with two predecessors: check the predecessors' tests
-				b := s.Instr.Block()
-				for d := b; d != nil && !delOnly; d = d.Idom() {
-					all := len(d.Preds) > 0
-					for _, pr := range d.Preds {
-						okPred := false
-						if len(pr.Instrs) > 0 {
-							if iff, ok := pr.Instrs[len(pr.Instrs)-1].(*ssa.If); ok && pr.Succs[0] == d {
-								if c, ok := core.AsCmp(iff.Cond, true); ok && c.Op == token.EQL {
-									if str, ok := core.ConstString(c.Y); ok && (str == "del" || str == "unlink") {
-										okPred = true
-									}
-								}
-							}
-						}
-						if !okPred {
-							all = false
+				n++
+				first := false
+				core.Walk(p.Resolve(c.Call.Args[0]), func(v ssa.Value) bool {
+					if ia, ok := v.(*ssa.IndexAddr); ok {
+						if k, isC := core.ConstInt(ia.Index); isC && k == 0 {
+							first = true
 						}
 					}
-					if all && len(d.Preds) >= 1 {
-						delOnly = true
+					return true
+				})
+				if first {
+					firstSeen = true
+					continue
+				}
+				// some other argument is tested: only for commands whose arguments are all keys
+				delOnly := false
+				for _, fct := range p.Conds {
+					if cm, ok := core.AsCmp(p.Resolve(fct.Cond), fct.Val); ok && cm.Op == token.EQL {
+						if str, ok := core.ConstString(cm.Y); ok && (str == "del" || str == "unlink") {
+							delOnly = true
+						}
 					}
 				}
+				if !delOnly {
+					allBad, allPos = "every argument of a command is tested against the control namespace although only DEL/UNLINK have keys in every position: a client command whose value or member merely looks like a bookkeeping key is swallowed", c.Pos()
+				}
 			}
-			r.Check(delOnly, "touchesBisyncNamespace/all-arguments-only-for-del", s.Pos(), "every argument of a command is tested against the control namespace although only DEL/UNLINK have keys in every position: a client command whose value or member merely looks like a bookkeeping key is swallowed")
+		})
+		if firstSeen {
+			r.OK("touchesBisyncNamespace/first-argument", f.Pos(), "")
 		}
+		r.Check(allBad == "", "touchesBisyncNamespace/all-arguments-only-for-del", allPos, "%s", allBad)
 		if n == 0 {
 			r.Fail("touchesBisyncNamespace", f.Pos(), "namespace test not used")
 		}
@@ -367,7 +355,7 @@ func ruleUnitParserRemovals(w *core.World, r *core.Report) {
 			cv := core.Unwrap(p.Resolve(fct.Cond))
 			if call, ok := cv.(*ssa.Call); ok && fct.Val {
 				n := core.ResolveCall(call).Name
-				if core.MatchName(n, "*RedisKeyFilter).FilterCmd", "*RedisKeyFilter).FilterDb", "syncer.isBisyncControlCommand") {
+				if core.MatchName(n, "*RedisKeyFilter).FilterCmd", "*RedisKeyFilter).FilterDb", "syncer.isBisyncControlCommand", "syncer.touchesBisyncNamespace") {
 					return
 				}
 				if n == "strings.EqualFold" {
